@@ -82,6 +82,7 @@ void    sim_errx(int code, const char *fmt, ...) __attribute__((noreturn));
 void    sim_warn(const char *fmt, ...);
 void    sim_warnx(const char *fmt, ...);
 uid_t   sim_geteuid(void);
+char   *sim_getenv(const char *name);
 int     sim_getaddrinfo(const char *node, const char *service,
 			const struct addrinfo *hints, struct addrinfo **res);
 void    sim_freeaddrinfo(struct addrinfo *res);
@@ -127,6 +128,7 @@ unsigned sim_alarm(unsigned s);
 #define warn(...)                sim_warn(__VA_ARGS__)
 #define warnx(...)               sim_warnx(__VA_ARGS__)
 #define geteuid()                sim_geteuid()
+#define getenv(a)                sim_getenv(a)
 #define getaddrinfo(a,b,c,d)     sim_getaddrinfo(a,b,c,d)
 #define freeaddrinfo(a)          sim_freeaddrinfo(a)
 #define calloc(a,b)              sim_calloc(a,b)
